@@ -11,6 +11,7 @@ import (
 	"flag"
 	"fmt"
 	"hash/fnv"
+	"io"
 	"os"
 	"os/exec"
 	"sort"
@@ -56,8 +57,9 @@ func emit(lg *zerolog.Logger, kind string, t, i int) {
 }
 
 // scenario name: <logger>/<writer>/<thread kinds ;-separated, events ,-separated>
-//   logger: shared | children | global | hooked
-//   writer: plain | sync | console
+//
+//	logger: shared | children | global | hooked | derived (children built by the goroutines themselves)
+//	writer: plain | sync | console
 type params struct {
 	logger, writer string
 	threads        [][]string
@@ -124,10 +126,18 @@ type inst struct {
 var expCache = map[string][]string{}
 var expMu sync.Mutex
 
-func buildLoggers(p params, w *recW) []zerolog.Logger {
-	var dst interface {
-		Write([]byte) (int, error)
-	} = w
+// tagHook marks the events of one derived child.
+type tagHook struct{ t int }
+
+func (h tagHook) Run(e *zerolog.Event, l zerolog.Level, m string) { e.Int("hook", h.t) }
+
+// buildLoggers returns the per-thread loggers. In the "derived" mode the children are NOT built up front:
+// derive(i) is called by goroutine i itself (a child per request), from a parent whose hooks were added
+// one at a time and whose context is non-empty - so that anything a derivation shares with its parent or
+// its siblings (a slice's spare capacity, a context buffer) is written by one goroutine while another
+// one logs.
+func buildLoggers(p params, w io.Writer) (lgs []zerolog.Logger, derive func(i int) zerolog.Logger) {
+	dst := w
 	switch p.writer {
 	case "sync":
 		dst = zerolog.SyncWriter(w)
@@ -135,22 +145,31 @@ func buildLoggers(p params, w *recW) []zerolog.Logger {
 		dst = zerolog.ConsoleWriter{Out: w, NoColor: true, PartsExclude: []string{"time"}}
 	}
 	root := zerolog.New(dst)
-	n := len(p.threads)
-	lgs := make([]zerolog.Logger, n)
-	for i := range lgs {
+	if p.logger == "derived" {
+		root = root.Hook(addHook{}).Hook(tagHook{-1}).Hook(tagHook{-2}).With().Str("parent", "ctx").Logger()
+	}
+	derive = func(i int) zerolog.Logger {
 		switch p.logger {
-		case "shared":
-			lgs[i] = root
 		case "children":
-			lgs[i] = root.With().Int("child", i).Logger()
+			return root.With().Int("child", i).Logger()
 		case "hooked":
-			lgs[i] = root.Hook(addHook{}).With().Str("c", "ctx").Logger()
+			return root.Hook(addHook{}).With().Str("c", "ctx").Logger()
+		case "derived":
+			return root.Hook(tagHook{i}).With().Int("child", i).Str("pad", strings.Repeat(string(rune('a'+i)), 20)).Logger().Level(zerolog.DebugLevel)
 		case "global":
 			zlog.Logger = root
-			lgs[i] = zlog.Logger
+			return zlog.Logger
+		}
+		return root
+	}
+	n := len(p.threads)
+	lgs = make([]zerolog.Logger, n)
+	if p.logger != "derived" {
+		for i := range lgs {
+			lgs[i] = derive(i)
 		}
 	}
-	return lgs
+	return lgs, derive
 }
 
 // expectedWrites: what each chain writes when run alone (sequentially, outside the scheduler).
@@ -165,7 +184,10 @@ func expectedWrites(p params, name string) []string {
 		for i, k := range kinds {
 			in := &inst{p: p}
 			w := &recW{in: in}
-			lgs := buildLoggers(p, w)
+			lgs, derive := buildLoggers(p, w)
+			if p.logger == "derived" {
+				lgs[t] = derive(t)
+			}
 			if p.logger == "global" {
 				emitGlobal(k, t, i)
 			} else {
@@ -186,11 +208,15 @@ func emitGlobal(kind string, t, i int) {
 
 func (in *inst) Body() {
 	w := &recW{in: in, yield: true}
-	lgs := buildLoggers(in.p, w)
+	lgs, derive := buildLoggers(in.p, w)
 	in.done = make([]bool, len(in.p.threads))
 	for t := range in.p.threads {
 		t := t
 		mcrt.GoNamed(fmt.Sprintf("g%d", t), false, func() {
+			if in.p.logger == "derived" {
+				lgs[t] = derive(t)
+				mcrt.Point("derived")
+			}
 			for i, k := range in.p.threads[t] {
 				if in.p.logger == "global" {
 					emitGlobal(k, t, i)
@@ -296,6 +322,8 @@ func plans(tier string) []drv.Plan {
 	add("children/plain/tiny,nested;big", b2)
 	add("hooked/plain/tiny,tiny;nested", b2)
 	add("global/plain/tiny;tiny;tiny", b2)
+	add("derived/plain/tiny,tiny;tiny", b2)
+	add("derived/plain/nested;tiny;tiny", 3)
 	add("shared/sync/tiny,tiny;big", b3)
 	add("shared/sync/tiny;tiny;tiny", b2)
 	add("shared/console/tiny,nested;tiny", b2)
@@ -439,13 +467,16 @@ func racePass() {
 			var mu sync.Mutex
 			lw := lockedWriter{w: w, mu: &mu}
 			_ = lw
-			lgs := buildLoggersRace(p, &lw)
+			lgs, derive := buildLoggers(p, &lw)
 			var wg sync.WaitGroup
 			for t := range p.threads {
 				t := t
 				wg.Add(1)
 				go func() {
 					defer wg.Done()
+					if p.logger == "derived" {
+						lgs[t] = derive(t)
+					}
 					for i, k := range p.threads[t] {
 						if p.logger == "global" {
 							emitGlobal(k, t, i)
@@ -474,32 +505,4 @@ func (l *lockedWriter) Write(p []byte) (int, error) {
 	l.mu.Lock()
 	defer l.mu.Unlock()
 	return l.w.Write(p)
-}
-
-func buildLoggersRace(p params, w *lockedWriter) []zerolog.Logger {
-	var dst interface {
-		Write([]byte) (int, error)
-	} = w
-	switch p.writer {
-	case "sync":
-		dst = zerolog.SyncWriter(w)
-	case "console":
-		dst = zerolog.ConsoleWriter{Out: w, NoColor: true, PartsExclude: []string{"time"}}
-	}
-	root := zerolog.New(dst)
-	lgs := make([]zerolog.Logger, len(p.threads))
-	for i := range lgs {
-		switch p.logger {
-		case "shared":
-			lgs[i] = root
-		case "children":
-			lgs[i] = root.With().Int("child", i).Logger()
-		case "hooked":
-			lgs[i] = root.Hook(addHook{}).With().Str("c", "ctx").Logger()
-		case "global":
-			zlog.Logger = root
-			lgs[i] = zlog.Logger
-		}
-	}
-	return lgs
 }
